@@ -522,7 +522,7 @@ func (s torn) exec(c *Ctx, cs tornCase) {
 	if oc.Err == "" {
 		if fm == "binary" {
 			// malformed bytes strictly inside a value that the reader of a local symbol table ignores get their own signature
-			if _, e := ref.DecodeBinary(cs.Data, ref.Options{}); e != nil && ref.InLSTOpenContent(cs.Data, e.Pos) {
+			if _, e := ref.DecodeBinary(cs.Data, ref.Options{}); e != nil && (ref.InLSTOpenContent(cs.Data, e.Pos) || (e.In > 0 && ref.InLSTOpenContent(cs.Data, e.In))) {
 				sigTail = fm + "/inside-ignored-symbol-table-content"
 			}
 		}
